@@ -1,7 +1,9 @@
 //! Self-test of the pool's watchdog (not a property check): unit 0 passes, unit 1
 //! spins forever inside a case (must be killed after `case_timeout_s` of CPU),
-//! unit 2 sleeps forever inside a case (must be killed after 8 x the timeout of
-//! wall clock), unit 3 is slow but makes progress (must NOT be killed).
+//! unit 2 sleeps forever inside a case (blocked: must be killed after the timeout
+//! of wall clock), unit 3 is slow but makes progress (0.6 s of CPU per case: must
+//! NOT be killed), unit 4 waits 2.5 s per case for a child process of its own
+//! (asleep without CPU, but not blocked: must NOT be killed).
 //! `c00wd quick` is expected to exit 1 with exactly two violations (class hang).
 use vcore::{Cfg, Check, Cx, Finding, Meta, Value, Violation, json};
 
@@ -12,7 +14,7 @@ impl Check for Wd {
         "C00"
     }
     fn units(&self, _cfg: &Cfg) -> usize {
-        4
+        5
     }
     fn case_timeout_s(&self, _cfg: &Cfg) -> f64 {
         1.0
@@ -31,8 +33,15 @@ impl Check for Wd {
                     std::thread::sleep(std::time::Duration::from_secs(1));
                 },
                 (3, _) => {
-                    // 2.5 s of wall clock without CPU use: longer than the timeout, shorter than 8 x
-                    std::thread::sleep(std::time::Duration::from_millis(2500));
+                    // 0.6 s of CPU per case: progress, below the timeout
+                    let t = std::time::Instant::now();
+                    while t.elapsed().as_millis() < 600 {
+                        std::hint::black_box(0);
+                    }
+                }
+                (4, _) => {
+                    // 2.5 s of wall clock without CPU use, waiting for a child process
+                    let _ = std::process::Command::new("sleep").arg("2.5").status();
                 }
                 _ => {}
             }
